@@ -26,7 +26,7 @@ KINDS = ["Becke", "LinearFinite", "Identity", "LinearInfinite", "Exp", "Power", 
 CLS = {k: k + "RTransform" for k in KINDS}
 REQUIRED_FAMILIES = [CLS[k] for k in KINDS] + ["InverseRTransform", "pinned"]
 REQUIRED_HOOKS = [f"decided:{c}:{m}" for c in list(CLS.values()) + ["InverseRTransform"] for m in ("deriv", "deriv2", "deriv3", "deriv_inverse", "deriv2_inverse", "deriv3_inverse", "roundtrip", "endpoint")]
-BUDGET = {"quick": 400, "thorough": 3000}
+BUDGET = {"quick": 900, "thorough": 7200}  # per-worker seconds; expected on 16 idle cores: quick ~10 s, thorough ~3-4 min
 MAX_DISCARD_FRACTION = 0.02
 NPTS = 40
 TOL_REL = 1e-5  # relative tolerance of a derivative (defects are O(1))
@@ -80,7 +80,7 @@ def _structured():
 
 def cases(tier, seed):
     base = _structured()
-    reps = 2 if tier == "quick" else 40
+    reps = 6 if tier == "quick" else 50
     out = []
     for rep in range(reps):
         for kind, p in base:
